@@ -321,7 +321,14 @@ class Framer(tasking.Tasker):
                                              human=human,
                                              count=count )
             name = "_".join((self.surname, tag))  # replace name with full name
-            clone = original.clone(name=name, tag=tag, schedule=schedule)
+            try:
+                clone = original.clone(name=name, tag=tag, schedule=schedule)
+            except excepting.CloneError as ex:  # script error such as clone name in use
+                raise excepting.ResolveError("{0}".format(ex),
+                                             name=name,
+                                             value=self.name,
+                                             human=human,
+                                             count=count )
             self.auxes[tag] = clone
 
             # inode is new (aux verb clone via)  clone.inode is old (framer moot via)
